@@ -606,6 +606,9 @@ pub async fn broadcast_changes(
     last_seq: CrsqlSeq,
     ts: Timestamp,
 ) -> Result<(), BroadcastError> {
+    #[cfg(feature = "verif")]
+    crate::verif::point("bcast.start", &db_version.0.to_string());
+
     let actor_id = agent.actor_id();
     let conn = agent.pool().read().await?;
     trace!("got conn for broadcast");
